@@ -392,7 +392,7 @@ impl Sub for Model {
         "element type {u8,u32,f32,i64} x column count {1,5,7,16,21,32,43} x history of up to 40 ops (new, with_capacity, resize grow/shrink/0, reserve, cell writes via both Index forms, row writes, fill, from_rows, clone-and-continue, iter_mut, into_iter_mut.rev); after EVERY op rows/columns/all cells/row pointer alignment/stride/iterators (forward, reverse, mixed double-ended, len) are compared with a Vec<Vec<T>> model, then equality against a matrix with equal cells but a different padding history; non-trivial = >= 5 ops incl. a growing resize after writes and a shrink"
     }
     fn cases(&self, tier: Tier) -> u64 {
-        tier.pick(28 * 600, 28 * 20_000)
+        tier.pick(28 * 3_000, 28 * 60_000)
     }
     fn strategy(&self, _tier: Tier) -> BoxedStrategy<Case> {
         (
